@@ -72,6 +72,9 @@ def make_interp(ctx, store):
         return b
 
     def npsave(I_, buf, arr, **kw):
+        if isinstance(buf, Record) and buf.label == "ZipMember":
+            # np.save straight into the open archive member
+            return I_.call(buf.native_methods["write"], (("__npy__", arr),))
         if isinstance(buf, Record):
             buf.attrs["content"] = ("__npy__", arr)
         else:
@@ -220,14 +223,18 @@ def run(ctx):
                             casts.append((f"dtype on {tgt}", n.lineno))
         ctx.ob("C17.lossless", meth, not casts, f"conversions on the persistence path: {casts}", ctx.program.loc(mmod, fn))
     # ---- rejection before I/O
-    for kind in ("snapshot-count", "grain-count"):
+    for kind in ("snapshot-count", "grain-count", "later volume snapshot of another size", "later orientation snapshot of another size"):
         store = Store()
         I = make_interp(ctx, store)
-        m = driver.make_mineral(I, "olivine", "olivine_A", "matrix_dislocation", 2, label="c", nsnap=2, symbolic_n=False)
+        m = driver.make_mineral(I, "olivine", "olivine_A", "matrix_dislocation", 2, label="c", nsnap=3 if kind.startswith("later") else 2, symbolic_n=False)
         if kind == "snapshot-count":
             m.attrs["fractions"] = m.attrs["fractions"][:1]
-        else:
+        elif kind == "grain-count":
             m.attrs["n_grains"] = 3
+        elif kind.startswith("later volume"):
+            m.attrs["fractions"][-1] = symarr("c.fx", (3,))
+        else:
+            m.attrs["orientations"][1] = symarr("c.Ax", (1, 3, 3))
         for pf in (None, "z"):
             store.events.clear()
             try:
@@ -249,7 +256,7 @@ def run(ctx):
                 ctx.ob("C17.reject", f"{how}:{bad.split('/')[-1]}", False, "non-NPZ filename accepted", lloc)
             except RaiseSig as r:
                 ctx.ob("C17.reject", f"{how}:{bad.split('/')[-1]}", r.exc.typename == "ValueError" and not store.events, f"raised {r.exc.typename}; events {store.events}", lloc)
-    ctx.floor("C17.reject", 12)
+    ctx.floor("C17.reject", 16)
 
 
 RULES = {
